@@ -171,11 +171,16 @@ impl<'s, M: Matcher, S: Sink> MultiLine<'s, M, S> {
                 if keepgoing {
                     keepgoing = match self.last_match.take() {
                         None => true,
+                        // An empty range can only be a match just past the
+                        // final line terminator. It is never reported, and
+                        // neither is any context leading up to it. (Context
+                        // owed to a previous match is handled below.)
+                        Some(last_match) if last_match.is_empty() => true,
+                        // Otherwise, honor a request to stop made by the
+                        // sink for the final match like for any other.
                         Some(last_match) => {
-                            if self.sink_context(&last_match)? {
-                                self.sink_matched(&last_match)?;
-                            }
-                            true
+                            self.sink_context(&last_match)?
+                                && self.sink_matched(&last_match)?
                         }
                     };
                 }
